@@ -479,12 +479,18 @@ def make_package(rng, prof=None, body=None):
         ncom = len(ids)
         pk.add('word/comments.xml', f'<w:comments {ns_decl()}>{com}</w:comments>'); dr.append(('rId4', 'comments', 'comments.xml'))
     extra_rels = {}
+    def note_body():
+        # with stray_inline: a note that holds inline content only (a display equation is block-level content), or ends with one
+        eq = lambda: '<m:oMathPara><m:oMath><m:r><m:t>' + (esc(g.text()) if prof.get('tokens') else 'z') + '</m:t></m:r></m:oMath></m:oMathPara>'
+        if prof.get('stray_inline') and r.random() < 0.3:
+            g.feat.add('note_without_paragraph'); return eq()
+        return g.par() + (g.table(1) if r.random() < 0.4 else '') + g.par() + (eq() if prof.get('stray_inline') and r.random() < 0.2 else '')
     if r.random() < prof['p_footnotes']:
         # producers other than Word number ordinary notes from 0 (or -1) and write no separator notes: "arbitrary ids"
         nid = r.choice(['2', '2', '2', '0', '-1', '1', '40'])
         seps = '' if nid in ('0', '-1') else '<w:footnote w:type="separator" w:id="-1"><w:p><w:r><w:separator/></w:r></w:p></w:footnote><w:footnote w:type="continuationSeparator" w:id="0"><w:p/></w:footnote>'
         fn = (seps +
-              f'<w:footnote w:id="{nid}"' + r.choice(['', '', ' w:type="normal"']) + '>' + g.par() + (g.table(1) if r.random() < 0.4 else '') + g.par() + '</w:footnote>'
+              f'<w:footnote w:id="{nid}"' + r.choice(['', '', ' w:type="normal"']) + '>' + note_body() + '</w:footnote>'
               + (('<w:footnote w:type="continuationNotice" w:id="12">' + g.par() + '</w:footnote>') if r.random() < 0.3 else '')
               # (an empty note is not schema-valid; it is kept as the LAST note, where its queued label cannot leak into another note)
               + r.choice(['<w:footnote w:id="3"/>', '<w:footnote w:id="3">' + g.par() + '</w:footnote>']))
